@@ -15,13 +15,18 @@ import (
 // Accessors for the `shutdown` verification harness (property C36).  Unexported names touched:
 // Agent.{ctx, cancel, clock, logger, agentType, agentVersion, hostname, opampClient, usageTracker,
 // healthCheckInterval, reportUsageInterval, healthCheck, reportUsagePeriodically}, newUsageTracker,
-// serviceName.
+// usageTracker.{Add, mut, currentDataPoints, lastDataPoints}, signal_traces, serviceName.
 
 type VerifShutdownAgent struct{ a *Agent }
 
+const (
+	VerifShutdownHealthInterval = time.Hour
+	VerifShutdownUsageInterval  = 15 * time.Second
+)
+
 // VerifShutdownNewAgent builds an Agent as NewAgent does, minus the network connection, and starts
-// its two background loops exactly as connect() does.  The clock is never advanced, so neither
-// ticker fires.
+// its two background loops exactly as connect() does.  The health-check interval is an hour and the
+// usage interval 15 s; the harness only ever fires the usage ticker.
 func VerifShutdownNewAgent(c client.OpAMPClient, clock clockwork.Clock) *VerifShutdownAgent {
 	ctx, cancel := context.WithCancel(context.Background())
 	a := &Agent{
@@ -34,8 +39,8 @@ func VerifShutdownNewAgent(c client.OpAMPClient, clock clockwork.Clock) *VerifSh
 		hostname:            "verif-host",
 		opampClient:         c,
 		usageTracker:        newUsageTracker(),
-		healthCheckInterval: time.Hour,
-		reportUsageInterval: time.Hour,
+		healthCheckInterval: VerifShutdownHealthInterval,
+		reportUsageInterval: VerifShutdownUsageInterval,
 	}
 	go a.healthCheck()
 	go a.reportUsagePeriodically()
@@ -52,4 +57,15 @@ func (v *VerifShutdownAgent) Stop() { v.a.Stop(context.Background()) }
 func (v *VerifShutdownAgent) Quiesce() {
 	ctx, _ := context.WithCancel(context.Background())
 	v.a.ctx = ctx
+}
+
+// Add records cumulative trace usage, as the health-check loop does.
+func (v *VerifShutdownAgent) Add(total float64) { v.a.usageTracker.Add(signal_traces, total) }
+
+// HasData: are the tracker's current / last data points non-empty.
+func (v *VerifShutdownAgent) HasData() (cur, last bool) {
+	t := v.a.usageTracker
+	t.mut.Lock()
+	defer t.mut.Unlock()
+	return len(t.currentDataPoints) > 0, len(t.lastDataPoints) > 0
 }
